@@ -342,31 +342,31 @@ theorem analyze_sound (IH : CallIH defs rc input summs lt self Mf) :
     simp only [analyze, Option.some.injEq] at h; subst h
     exact good_of_step defs rc (by
       simp only [exec, Fine]
-      exact ⟨⟨hi.text, hi.pos, hi.eof, hi.err, hi.errs, hi.ne, hi.capOk⟩, a, by simp, sat_same hs rfl rfl rfl⟩)
+      exact ⟨⟨hi.text, hi.pos, hi.eof, hi.err, hi.errs, hi.ne, hi.capOk, hi.chain⟩, a, by simp, sat_same hs rfl rfl rfl⟩)
   | popCp =>
     intro a outs h M s hi hs
     simp only [analyze, Option.some.injEq] at h; subst h
     exact good_of_step defs rc (by
       simp only [exec, Fine]
-      exact ⟨⟨hi.text, hi.pos, hi.eof, hi.err, hi.errs, hi.ne, hi.capOk⟩, a, by simp, sat_same hs rfl rfl rfl⟩)
+      exact ⟨⟨hi.text, hi.pos, hi.eof, hi.err, hi.errs, hi.ne, hi.capOk, hi.chain⟩, a, by simp, sat_same hs rfl rfl rfl⟩)
   | pushLocal =>
     intro a outs h M s hi hs
     simp only [analyze, Option.some.injEq] at h; subst h
     exact good_of_step defs rc (by
       simp only [exec, Fine]
-      exact ⟨⟨hi.text, hi.pos, hi.eof, hi.err, hi.errs, hi.ne, hi.capOk⟩, a, by simp, sat_same hs rfl rfl rfl⟩)
+      exact ⟨⟨hi.text, hi.pos, hi.eof, hi.err, hi.errs, hi.ne, hi.capOk, hi.chain⟩, a, by simp, sat_same hs rfl rfl rfl⟩)
   | popLocal =>
     intro a outs h M s hi hs
     simp only [analyze, Option.some.injEq] at h; subst h
     exact good_of_step defs rc (by
       simp only [exec, Fine]
-      exact ⟨⟨hi.text, hi.pos, hi.eof, hi.err, hi.errs, hi.ne, hi.capOk⟩, a, by simp, sat_same hs rfl rfl rfl⟩)
+      exact ⟨⟨hi.text, hi.pos, hi.eof, hi.err, hi.errs, hi.ne, hi.capOk, hi.chain⟩, a, by simp, sat_same hs rfl rfl rfl⟩)
   | setLocal =>
     intro a outs h M s hi hs
     simp only [analyze, Option.some.injEq] at h; subst h
     exact good_of_step defs rc (by
       simp only [exec, Fine]
-      exact ⟨⟨hi.text, hi.pos, hi.eof, hi.err, hi.errs, hi.ne, hi.capOk⟩, a, by simp, sat_same hs rfl rfl rfl⟩)
+      exact ⟨⟨hi.text, hi.pos, hi.eof, hi.err, hi.errs, hi.ne, hi.capOk, hi.chain⟩, a, by simp, sat_same hs rfl rfl rfl⟩)
   | startNodeAtCp k =>
     intro a outs h M s hi hs
     simp only [analyze, Option.some.injEq] at h; subst h
@@ -432,7 +432,7 @@ theorem analyze_sound (IH : CallIH defs rc input summs lt self Mf) :
         cases hb : (a.fact.meetIn [k]).isBot with
         | false => rfl
         | true => exact absurd (Fact.meetIn_sound a.fact [k] s.cur hs.fact (by simp [hk])) (Fact.isBot_sound _ _ hb)
-      refine ⟨⟨hi'.text, hi'.pos, hi'.eof, hi'.err, hi'.errs, hi'.ne, hi'.capOk⟩, a.eaten (some true) (k != .Eof), by simp [hnb], ?_⟩
+      refine ⟨⟨hi'.text, hi'.pos, hi'.eof, hi'.err, hi'.errs, hi'.ne, hi'.capOk, hi'.chain⟩, a.eaten (some true) (k != .Eof), by simp [hnb], ?_⟩
       refine sat_eaten (s := s) (s' := { s' with flag := true }) hs (by show mu s' ≤ mu s; omega) _ ?_ _
         (by intro b hb; simp at hb; subst hb; rfl)
       intro hc
